@@ -4,7 +4,7 @@ functions."""
 import ast
 import re
 
-from sa import tables, templ, pyflow
+from sa import pattern, tables, templ, pyflow
 from sa.loader import AnalysisError
 
 EXPLANATION = (
@@ -421,6 +421,64 @@ def rule_r7(repo, run):
     run.floor(R, "decision outcomes enumerated", n, 4)
 
 
+def rule_r8(repo, run):
+    R = run.rule("C06.R8", "a destructor index handed out at registration is the position of that destructor in the "
+                           "emitted table / switch")
+    n = 0
+    for mname, cname in (("wrapc", "Wrapc"), ("wrapp", "Wrapp")):
+        m = repo.module(mname)
+        reg = m.func(cname + ".add_capsule_code")
+        # registration: index = number of entries so far, name appended to the order list in the same branch
+        blocks = pattern.find(reg, "if MV_N not in self.capsule_code:\n    ...")
+        ok = False
+        for node, env in blocks:
+            has_idx = pattern.has(node.body, "str(len(self.capsule_code))")
+            has_app = pattern.has(node.body, "self.capsule_order.append(%s)" % env["N"])
+            ok = ok or (has_idx and has_app)
+        n += 1
+        run.check(R, "%s.%s.add_capsule_code:index" % (mname, cname), ok,
+                  "a new destructor must get index len(capsule_code) and be appended to capsule_order in the same step",
+                  m.loc(reg))
+        # emission: every loop that prints per-destructor code walks capsule_order in order, numbering by position
+        for q, fn in sorted(m.functions().items()):
+            if not q.startswith(cname + "."):
+                continue
+            for lp in ast.walk(fn):
+                if not isinstance(lp, ast.For):
+                    continue
+                uses = any(pattern.has(st, "self.capsule_code[MV_K]") for st in lp.body)
+                if not uses:
+                    continue
+                n += 1
+                it = lp.iter
+                good = pattern.match(pattern.parse("enumerate(self.capsule_order)")[1], it, {}) or \
+                    pattern.match(pattern.parse("self.capsule_order")[1], it, {})
+                run.check(R, "%s.%s:table-order" % (mname, q), bool(good),
+                          "destructor code is emitted in the order of `%s`, not in registration order "
+                          "(self.capsule_order): entry i of the table is no longer the destructor whose index is i"
+                          % m.seg(it), m.loc(lp), sample=dict(function=q, iterates=m.seg(it)))
+    run.floor(R, "destructor table sites", n, 4)
+    # a capsule that the caller passes in to receive ownership is intent(OUT): Fortran then finalises (releases) what
+    # the variable held before the call; INOUT / no intent would silently overwrite a live capsule
+    table = tables.StatementTable(repo, "statements", "fc_statements")
+    nc = 0
+    for name, e in sorted(table.resolve_all("c++").items()):
+        if not name.startswith("f_"):
+            continue
+        for line in e.lines("arg_decl"):
+            mm = re.search(r"type\(\{F_capsule_type\}\)(.*?)::\s*\{c_var_capsule\}", line)
+            if mm:
+                nc += 1
+                intent = re.search(r"intent\((\w+)\)", mm.group(1), re.I)
+                run.check(R, "statements.fc_statements[%s]:capsule-intent" % name,
+                          bool(intent) and intent.group(1).upper() == "OUT",
+                          "the capsule dummy argument is declared `%s`: it must be intent(OUT) so that a capsule "
+                          "variable that already owns memory is finalised before it is overwritten (else the earlier "
+                          "block is never released)" % line.strip(), table.loc(e.raw), sample=dict(entry=name, decl=line.strip()))
+    if nc < 1:
+        raise AnalysisError("C06.R8: no capsule dummy argument found in f_* statements")
+
+
 def run(repo, run, tier):
     tables.check_model_assumptions(repo)
     table = tables.StatementTable(repo, "statements", "fc_statements")
@@ -460,3 +518,4 @@ def run(repo, run, tier):
     run.nontrivial.update(("C06.R5", c) for c in kept)
     rule_r6(repo, run)
     rule_r7(repo, run)
+    rule_r8(repo, run)
